@@ -121,6 +121,9 @@ func build(r *rt.Rand, tmp string) *composition {
 			if p, ok := e.Payload.(*plainPayload); ok {
 				return p.N%mod != 1, nil
 			}
+			if l, ok := e.Payload.([]*plainPayload); ok && len(l) == 1 {
+				return l[0].N%mod != 1, nil
+			}
 			return true, nil
 		}})
 		pool["filter"] = append(pool["filter"], id)
@@ -268,6 +271,9 @@ func extractID(doc map[string]interface{}, format string) string {
 	} else {
 		p = doc["data"]
 	}
+	if l, ok := p.([]interface{}); ok && len(l) == 1 {
+		p = l[0]
+	}
 	if m, ok := p.(map[string]interface{}); ok {
 		if id, ok := m["ID"].(string); ok {
 			return id
@@ -306,6 +312,10 @@ func TestC19(t *testing.T) {
 					switch p := e.Payload.(type) {
 					case *plainPayload:
 						id = p.ID
+					case []*plainPayload:
+						if len(p) == 1 {
+							id = p[0].ID
+						}
 					case *rotPayload:
 						id = p.ID
 					case map[string]interface{}:
@@ -369,7 +379,12 @@ func TestC19(t *testing.T) {
 					id := fmt.Sprintf("e%d-%d", s, n)
 					sec, sens := fmt.Sprintf("SECRETCANARY-%s-x", id), fmt.Sprintf("SENSCANARY-%s-x", id)
 					canaries[s] = append(canaries[s], sec, sens)
-					st, err := c.b.Send(ctx, "plain", &plainPayload{ID: id, Secret: sec, Sens: sens, Pub: "pub-" + id, N: n})
+					var payload interface{} = &plainPayload{ID: id, Secret: sec, Sens: sens, Pub: "pub-" + id, N: n}
+					if sr.Intn(5) == 0 {
+						// a slice payload: the pipelines share its backing array unless a node copies it
+						payload = []*plainPayload{payload.(*plainPayload)}
+					}
+					st, err := c.b.Send(ctx, "plain", payload)
 					if err != nil {
 						atomic.AddInt64(&sendErrs, 1)
 					}
@@ -503,7 +518,11 @@ func TestC19(t *testing.T) {
 					break
 				}
 				if s.afterEncrypt && s.format == "json" {
-					if p, ok := doc["payload"].(map[string]interface{}); ok {
+					pl := doc["payload"]
+					if l, ok := pl.([]interface{}); ok && len(l) == 1 {
+						pl = l[0]
+					}
+					if p, ok := pl.(map[string]interface{}); ok {
 						if v, _ := p["Sens"].(string); strings.HasPrefix(v, cryp.EncPrefix) {
 							// a pipeline with several encrypt filters encrypts in layers
 							okv := false
